@@ -606,6 +606,12 @@ package jd
 //@   ensures_bounded ret0
 //@   carries C16
 
+//@ contract verifYamlText
+//@   bounded
+//@   universe text verifYamlTexts()
+//@   ensures_bounded ret0 == ""
+//@   carries C16 C13
+
 //@ contract verifSetSemantics
 //@   bounded
 //@   universe a verifConvArr(verifSmallArrays(3))
